@@ -163,7 +163,7 @@ class FilesLeg(object):
                 "sort_attribute_values": draw(st.integers(0, 6)) == 0,
                 "gtf_infer": gtf_infer,
                 "final_newline": draw(st.integers(0, 5)) > 0,
-                "input": draw(st.sampled_from(["plain", "plain", "plain", "crlf", "gz-crlf"])),
+                "input": draw(st.sampled_from(["plain", "plain", "plain", "crlf", "gz-crlf", "url", "url-gz"])),
                 "toggled_before": draw(st.integers(0, 9)) == 0,
             }
 
@@ -210,6 +210,20 @@ class FilesLeg(object):
                 fh.write(text.replace("\n", "\r\n").encode("utf-8"))
         elif case.get("input") == "crlf":
             path = ctx.write("in_crlf.gff", text.replace("\n", "\r\n"))
+        elif case.get("input") in ("url", "url-gz"):
+            # the file named by a URL, with an empty line after its first feature line (empty lines are skipped)
+            parts = text.split("\n")
+            k = len(case["directives"]) + 1
+            text_b = "\n".join(parts[:k] + [""] + parts[k:]) if n >= 2 else text
+            if case["input"] == "url-gz":
+                import gzip
+
+                path = ctx.path("in_url.gff.gz")
+                with gzip.open(path, "wb") as fh:
+                    fh.write(text_b.encode("utf-8"))
+            else:
+                path = ctx.write("in_url.gff", text_b)
+            path = "file://" + path
         kwargs = dict(
             checklines=case["checklines"],
             merge_strategy=case["merge_strategy"],
@@ -311,8 +325,10 @@ class FilesLeg(object):
         # printing the same objects again gives the same lines
         it = db.all_features()
         got = []
+        held = []
         for k, f in enumerate(it):
             got.append(f)
+            held.append([(k_, list(v_)) for k_, v_ in f.attributes.items()])
             if k == 0:
                 list(db.features_of_type(f.featuretype))
                 db[f.id]
@@ -324,6 +340,11 @@ class FilesLeg(object):
                            % (len(got), len(printed)), sig={"kind": "interleaved-iteration"})
         if [str(f) for f in got] != printed:
             return Failure("printing the same features twice gives different lines", sig={"kind": "second-print"})
+        for f, h in zip(got, held):
+            hash(f)
+            now = [(k_, list(v_)) for k_, v_ in f.attributes.items()]
+            if now != h:
+                return Failure("printing / hashing a feature changed its attributes from %r to %r" % (h, now), sig={"kind": "print-mutates"})
 
         # (3) close and reopen
         if not case["memory"]:
